@@ -50,6 +50,9 @@ def contracts():
         // C13: a file that did not exist is created with the mode configured for its type (0600 for accounts)
         r is Ok && !old(w).fs.files.contains_key(file_path_spec(*fm, file_type)) ==>
             final(w).fs.modes[file_path_spec(*fm, file_type)] == mode_cfg(*fm, file_type), //@C13.created_with_configured_mode
+        // an existing file keeps the mode it was created with (it is rewritten in place, not replaced by a file made with other permissions)
+        r is Ok && old(w).fs.files.contains_key(file_path_spec(*fm, file_type)) ==>
+            final(w).fs.modes[file_path_spec(*fm, file_type)] == old(w).fs.modes[file_path_spec(*fm, file_type)], //@C13.existing_file_keeps_its_mode
         // C10/C13: pre hook, open, write, (chown), post hook - in this order, create or edit consistently
         r is Ok ==> final(w).fs.events == old(w).fs.events + write_trace(*fm, file_type, !old(w).fs.files.contains_key(file_path_spec(*fm, file_type))), //@C10.file_hook_bracket,C13.chown_after_write
         // whatever happens (a hook that fails, an unwritable target), what has been done so far is the beginning of that
